@@ -92,6 +92,8 @@ class multiline_alignment_between_tokens(alignment.Rule):
                 if isinstance(oToken, parser.carriage_return):
                     iColumn = 0
                     bSkipCommentLine = rules_utils.does_line_start_with_comment(lTokens[iToken + 1 : iToken + 3])
+                    if iToken + 1 < len(lTokens) and isinstance(lTokens[iToken + 1], parser.preprocessor):
+                        bSkipCommentLine = True
                     if bSkipCommentLine:
                         dActualIndent[iLine] = None
                     else:
